@@ -176,11 +176,11 @@ pub open spec fn esc_table(intermediate: Option<char>, c: char) -> Option<Functi
 
 /// the mode / SGR lists of the five list-valued CSI functions are computed by iterator chains
 /// outside Verus's subset; they are uninterpreted here and pinned down by the Kani harnesses
-pub uninterp spec fn ansi_modes_of(ps: [Param; 32], cur: usize) -> Seq<AnsiMode>;
-pub uninterp spec fn dec_modes_of(ps: [Param; 32], cur: usize) -> Seq<DecMode>;
-pub uninterp spec fn sgr_ops_of(ps: [Param; 32], cur: usize) -> Seq<SgrOp>;
+pub uninterp spec fn ansi_modes_of(ps: [Param; PARAMS_LEN], cur: usize) -> Seq<AnsiMode>;
+pub uninterp spec fn dec_modes_of(ps: [Param; PARAMS_LEN], cur: usize) -> Seq<DecMode>;
+pub uninterp spec fn sgr_ops_of(ps: [Param; PARAMS_LEN], cur: usize) -> Seq<SgrOp>;
 
-pub open spec fn vec_fun_matches(r: Option<Function>, want: int, ps: [Param; 32], cur: usize) -> bool {
+pub open spec fn vec_fun_matches(r: Option<Function>, want: int, ps: [Param; PARAMS_LEN], cur: usize) -> bool {
     match r {
         Some(Function::Sm(v)) => want == 0 && v@ == ansi_modes_of(ps, cur),
         Some(Function::Rm(v)) => want == 1 && v@ == ansi_modes_of(ps, cur),
@@ -193,7 +193,7 @@ pub open spec fn vec_fun_matches(r: Option<Function>, want: int, ps: [Param; 32]
 
 /// [C03,C20] the CSI dispatch table: final byte (and prefix / intermediate) -> function with
 /// the parameters as written; everything not listed is inert
-pub open spec fn csi_scalar(ps: [Param; 32], intermediate: Option<char>, c: char) -> Option<Function> {
+pub open spec fn csi_scalar(ps: [Param; PARAMS_LEN], intermediate: Option<char>, c: char) -> Option<Function> {
     let p0 = ps[0].parts[0];
     let p1 = ps[1].parts[0];
     let p2 = ps[2].parts[0];
@@ -245,7 +245,7 @@ pub open spec fn csi_vec_kind(intermediate: Option<char>, c: char) -> int {
     }
 }
 
-pub open spec fn csi_matches(r: Option<Function>, ps: [Param; 32], cur: usize, intermediate: Option<char>, c: char) -> bool {
+pub open spec fn csi_matches(r: Option<Function>, ps: [Param; PARAMS_LEN], cur: usize, intermediate: Option<char>, c: char) -> bool {
     if csi_vec_kind(intermediate, c) >= 0 { vec_fun_matches(r, csi_vec_kind(intermediate, c), ps, cur) }
     else { r == csi_scalar(ps, intermediate, c) }
 }
@@ -258,4 +258,12 @@ pub open spec fn param_step(p: Param, c: char) -> Param {
         // digit: (10 * v + d) mod 2^16
         Param { cur_part: p.cur_part, parts: p.parts }   // value stated separately (array update)
     }
+}
+
+/// [C03,C08] "up to 32 parameters", "up to 6 sub-parameters"
+pub proof fn lemma_param_capacity()
+    ensures
+        PARAMS_LEN == 32,
+        MAX_PARAM_LEN == 6,
+{
 }
